@@ -112,6 +112,14 @@ def status():
                     rc2, out2, _ = core.run(["lean", "-R", core.LEAN_DIR, "-o", os.path.join(work, rel[:-5] + ".olean"),
                                              os.path.join(core.LEAN_DIR, rel)], cwd=core.LEAN_DIR, timeout=2400, env=env)
                     mod_ok[m] = (rc2 == 0, out2[-1500:])
+            res["diff"] = []
+            if src_ok:
+                # the translated CURRENT source against the model, on sizes far beyond the Python boxes
+                rc3, out3, _ = core.run(["lean", "-R", core.LEAN_DIR, "--run",
+                                         os.path.join(core.LEAN_DIR, "CkptGen", "Diff.lean"), "3000", "14"],
+                                        cwd=core.LEAN_DIR, timeout=1800, env=env)
+                res["diff"] = [ln for ln in out3.splitlines() if ln.startswith(("nadv ", "finalize "))][:60]
+                res["diff_completed"] = "done" in out3.splitlines()[-3:] if out3.strip() else False
             for fn, spec in reg.items():
                 if tstatus.get(fn, "ok") != "ok":
                     res["functions"][fn] = {"ok": False, "theorems": {t: None for t in spec["theorems"]},
@@ -171,6 +179,25 @@ def for_property(prop, st=None):
             problems.append("source-level theorem(s) %s of `%s` no longer check: %s" % (
                 ", ".join(bad) or "(all)", fn, info["why"][:300]))
     return fns, problems, ax
+
+
+def extra_inputs(st=None):
+    """real schedules to run for the disagreements found by CkptGen/Diff.lean (translated current source vs model)"""
+    st = st or status()
+    out = []
+    lines = st.get("diff", [])
+    rank = {"SUBOPTIMAL": 0, "RAISES": 0, "unranked": 1, "still-optimal": 2}
+    lines = sorted(lines, key=lambda ln: rank.get(ln.split()[-1], 1))
+    for ln in lines:
+        w = ln.split()
+        if w[0] == "nadv":
+            n, s_, tr = int(w[1]), int(w[2]), w[3]
+            if n >= 2 and s_ >= 1:
+                out.append(("MS %d 0 %d %s" % (n, s_, tr), n, 1))
+                out.append(("MS %d %d 0 %s" % (n, s_, tr), n, 1))
+                if s_ >= 2:
+                    out.append(("TL %d %d R %s" % (n, s_ - 1, tr), n, 1))
+    return list(dict.fromkeys(out))[:24]
 
 
 if __name__ == "__main__":
